@@ -431,6 +431,8 @@ ToPath(c, sid) ==
           ELSE IF \A s \in DOMAIN t.segs : \A k \in DOMAIN t.segs[s] :
                      t.segs[s][k].kind = "ph" => Accepts(t.segs[s][k].text, AGet(data, PhKey(t.segs[s][k].text)))
                THEN path ELSE <<>>
+SameShapeCfg(c1, c2) == PC(c1).templates = PC(c2).templates /\ PC(c1).mapping = PC(c2).mapping /\
+                        PC(c1).key_patterns = PC(c2).key_patterns /\ PC(c1).defaults = PC(c2).defaults
 SamePath(p, q) == Len(p) = Len(q) /\ \A s \in DOMAIN p : Concat(p[s]) = Concat(q[s])
 PathStr(path) == JoinStr([s \in DOMAIN path |-> Concat(path[s])], "/")
 =============================================================================
